@@ -1,6 +1,6 @@
 """C17 — external actions move once through request, claim and settlement — durably."""
 from ..prims import *
-from ..guards import check_strength, check_zip_lengths
+from ..guards import check_strength, check_zip_lengths, check_whole_sequence
 from ..guards import find_guard, find_presence_guard, side_tokens
 from ..baselines import baseline
 
@@ -150,6 +150,8 @@ def run(ctx):
 
     # ---- R3
     _zip_done = set()
+    _seq_done = set()
+    BYTE_READERS = ("read_segment_bytes",)
     for (path, variant, ta, tb) in GUARDS:
         f = prog.fn(path)
         if not tb:
@@ -160,6 +162,8 @@ def run(ctx):
         if st == "ok":
             check_strength(rep, "C17.R3", "guard:%s:%s:%s~%s" % (f.name, variant, "+".join(sorted(ta)), "+".join(sorted(tb))), "C17", prog, f, PE, variant, ta, tb)
         check_zip_lengths(rep, "C17.R3", prog, f, _zip_done)
+        if f.name not in BYTE_READERS:   # byte-level readers slice by decoded offsets; their bounds are C13's clause
+            check_whole_sequence(rep, "C17.R3", prog, f, _seq_done)
     for (path, variant, need) in PRESENCE:
         f = prog.fn(path)
         st, detail = find_presence_guard(prog, f, PE, variant, need)
